@@ -87,6 +87,21 @@ def check(run):
                 run.known(kid, known[kid]["text"])
             else:
                 oracle_fail.append((cfg, "HRUN 2 0 - " + script, f"{name}: {exp[-1][:200]}", (crash or got[k][0] if got else "crash")[-300:]))
+    # values that share one stored string / raw node (a copy inside the same document): overwriting one user — with a value of
+    # the same size, through the typed bin / ext API or as a raw value — leaves the other users as they were
+    for pad in ("", "toarr 1 @0,1 ;; ", "toarr 1 @0,1 ;; toarr 1 @0,1 ;; "):          # (shifts which API form the harness uses)
+        for v1, v2 in (("rc4020102", "rc4020304"), ("rd5070102", "rd5070304"), ("s6162", "s6364"), ("rc403616263", "rc403646566")):
+            script = (pad + f"toarr 0 @0 ;; addval 0 {v1} @0 ;; getelem 0 0 2 @0,2 ;; addnew 0 3 @0,2,3 ;; assign 3 2 @0,2,3 ;; addnew 0 4 @0,2,3,4 ;; assign 4 2 @0,2,3,4 ;; "
+                      f"set 2 {v2} @0,2,3,4 ;; set 3 {v2} @0,2,3,4 ;; set 3 {v1} @0,2,3,4 ;; ")
+            mo, _ = vlib.run_lines(model, ["CFG " + cfg, "HEXP 2 " + script])
+            io, crash = vlib.run_lines(impl, ["CFG " + cfg, "HRUN 2 0 - " + script])
+            run.count(("shared-node", pad, v1))
+            exp = [x for x in mo[1].split(" ;; ") if x.strip()]
+            got, _ = histcheck.parse_run(io[1]) if len(io) > 1 else ([], "")
+            k = histcheck.first_divergence(exp, got)
+            if crash or k is not None:
+                oracle_fail.append((cfg, "HRUN 2 0 - " + script, f"users of a shared node, step {k}: {exp[k][:160] if k is not None and k < len(exp) else ''}",
+                                    (crash or (got[k][0] if k is not None and k < len(got) else "missing"))[-300:]))
     # the representation under the tree: arrays/objects as chains of slots (Model/Collection.v, Proofs/CollProofs.v)
     nchain = chaincheck.run(run, rnd, "C04", [(4, 256, 4), (1, 4, 1), (2, 3, 2), (1, 16, 4), (1, 255, 1)] + ([(1, 5, 3), (2, 128, 4), (1, 2, 2), (4, 7, 1)] if thorough else []),
                             400 if thorough else 60)
